@@ -37,10 +37,17 @@ LENIENT = dict(
     events=['+3 = E "x"', '3_0 = E "x"', '0x3 = E "x"', '3.0 = E "x"', '-3 = E "x"'],
     track=["2 = N 03 0", "2 = N 00 0", "2 = N 07 0", "2 = S 02 5", "2 = N +1 0", "2 = N 1 +0", "+2 = N 1 0", "2 = N 1 0.0", "2 = N 1 0x0", "2 = N 1_0 0", "2 = N 1 1_0", "2 = S +2 5", "2 = N 10 0", "2 = N -1 0", "2 = N 1 -1"],
 )
+# a whole valid line of the section's own kinds behind (or in front of) junk: a recogniser applied with search()
+# instead of match(), or without its anchors, would dig it out
+PREFIXED = dict(
+    sync=["x0 = B 1", "-5 = TS 4", "// 5 = A 1", "1.5 = B 1", "5 = B 1 //", "5 = TS 4 x"],
+    events=['x3 = E "x"', '// 3 = E "x"', '-3 = E "lyric l"', '1.3 = E "section s"'],
+    track=["x2 = S 2 5", "-2 = S 2 5", "// 2 = S 2 5", "1.2 = S 2 5", "2 = N 8 0 2 = S 2 5", "x2 = E solo", "// 2 = N 1 0", "1.2 = N 1 0", "2 = S 2 5 //", "2 = N 1 0 x"],
+)
 GARBAGE = dict(
-    sync=["", "garbage", "0 = N 0 0", '0 = E "x"', "0 = B", "0 = TS", "5 = B x", " = B 1", "5 = A", "0 = BB 1"] + BRACES + LENIENT["sync"],
-    events=["", "garbage", "0 = B 120000", "0 = E solo", "0 = N 0 0", '3 = E "unterminated', "3 = E", '= E "x"'] + BRACES + LENIENT["events"],
-    track=["", "garbage", "2 = S 64 5", "2 = N 8 0", "2 = E two words", "0 = B 120000", '0 = E "section a"', "2 = S 2", "2 = N 0", "2 = N 0 0 0", "2 = S 1 5"] + BRACES + LENIENT["track"],
+    sync=["", "garbage", "0 = N 0 0", '0 = E "x"', "0 = B", "0 = TS", "5 = B x", " = B 1", "5 = A", "0 = BB 1"] + BRACES + LENIENT["sync"] + PREFIXED["sync"],
+    events=["", "garbage", "0 = B 120000", "0 = E solo", "0 = N 0 0", '3 = E "unterminated', "3 = E", '= E "x"'] + BRACES + LENIENT["events"] + PREFIXED["events"],
+    track=["", "garbage", "2 = S 64 5", "2 = N 8 0", "2 = E two words", "0 = B 120000", '0 = E "section a"', "2 = S 2", "2 = N 0", "2 = N 0 0 0", "2 = S 1 5"] + BRACES + LENIENT["track"] + PREFIXED["track"],
 )
 
 SCRIPT = """{observe_src}
@@ -130,7 +137,11 @@ def _disjoint(ctx):
     """E3: no string (of any length) is claimed by two recognisers of the sync / instrument section."""
     for sec in ("sync", "track"):
         try:
-            pats = A.capture_section(sec)
+            # only the recognisers of this section's own line kinds (each claims its canonical line); whatever else
+            # the implementation happens to match body lines against is not a "kind" of the statement
+            pats = [p for p in A.capture_section(sec) if any(A.applies(p, c) for c in CANON[sec].values())]
+            if len(pats) > 8:
+                raise A.Unsupported("%d recognisers claim canonical %s lines" % (len(pats), sec))
             nfas = [A.from_compiled(p) for p in pats]
         except A.Unsupported as e:
             ctx.hist["E3_unavailable(%s)" % e] += 1
@@ -143,7 +154,7 @@ def _disjoint(ctx):
             ctx.evaluations += 1
             ctx.hist["disjointness_products"] += 1
             for nfa, pat in ((nfas[i], p), (nfas[j], q)):
-                total += A.conform_fast(pat, A.DFA(nfa), A.short_strings(g.reps, 5))
+                total += A.conform_fast(pat, A.DFA(nfa), A.short_strings(g.reps, 5, cap=3 * 10**5))
             both = [g.wit[k] for k, acc in enumerate(g.acc) if all(acc)]
             if both:
                 w = both[0]
